@@ -200,7 +200,7 @@ theorem C07.huber_vi (gam sig x z : K) (hg : 0 < gam) (hs : 0 < sig) :
     have hx : gam + sig < |x| := not_le.mp h
     rcases le_or_gt 0 x with h0 | h0
     · rw [abs_of_nonneg h0] at hx
-      have hsx : signK x = 1 := by unfold signK; rw [if_pos (by linarith)]
+      have hsx : x / |x| = 1 := by rw [abs_of_nonneg h0]; exact div_self (by linarith)
       rw [hsx, mul_one]
       have hp : gam < x - sig := by linarith
       have hfp : huberFn gam (x - sig) = (x - sig) - gam / 2 := by
@@ -214,8 +214,8 @@ theorem C07.huber_vi (gam sig x z : K) (hg : 0 < gam) (hs : 0 < sig) :
         · have := le_abs_self z; linarith
       nlinarith
     · rw [abs_of_neg h0] at hx
-      have hsx : signK x = -1 := by
-        unfold signK; rw [if_neg (by linarith), if_pos h0]
+      have hsx : x / |x| = -1 := by
+        rw [abs_of_neg h0, div_neg, div_self (ne_of_lt h0)]
       rw [hsx]
       have hp : x + sig < -gam := by linarith
       have e : x - sig * -1 = x + sig := by ring
@@ -800,30 +800,19 @@ theorem C07.klcc_vi (lam sig g x z : ℝ) (hl : 0 < lam) (hs : 0 < sig) (hg : 0 
   rw [e4]
   nlinarith
 
-/-! ## open findings, reproduced on the model (which follows the code)
+/-! ## open finding, reproduced on the model (which follows the code)
 
-The optimality theorems above are stated in the inner product of the functional's own space.
-`proximal_linfty` / `proximal_convex_conj_linfty` (C07-F1) and the simplex / sum-constraint
-projections under non-constant weights (C07-F4) do NOT satisfy them; `C07.sumc_vi` and
-`C07.simplex_kkt_sufficient` are therefore stated for the unweighted (constant-weight) inner
-product only, and no optimality theorem is claimed for `Fn.linf` / `Fn.cclinf`. -/
+`proximal_linfty` / `proximal_convex_conj_linfty` use the constant weight of the space
+(`_const_weight`, fixed in round 2) but still ignore NON-constant array weights (C07-F1, open):
+no optimality theorem is claimed for `Fn.linf` / `Fn.cclinf` on array-weighted spaces. -/
 
-/-- Finding C07-F1 on the model (which follows the code): on the one-point space with weight 2
-(`rn(1, weighting=2)`), `LpNorm(inf).proximal(1)([2])` returns `[1]`, but `z = 3/2` has a
-smaller objective `max|z| + 2 (z − 2)²/(2·1)`: the proximal ignores the weighting. -/
-theorem C07.linf_weighted_fails :
-    Fn.prox (⟨id, 0⟩ : Env ℚ) .linf [2] (.sc 1) [2] = [1] ∧
-    |(3 / 2 : ℚ)| + 2 * ((3 / 2 : ℚ) - 2) ^ 2 / (2 * 1) < |(1 : ℚ)| + 2 * ((1 : ℚ) - 2) ^ 2 / (2 * 1) := by
+/-- Finding C07-F1 on the model: on `rn(1, weighting=[4])` (an ARRAY weighting, so the code
+uses weight 1), `LpNorm(inf).proximal(1)([2])` returns `[1]`, but `z = 7/4` has a smaller
+objective `|z| + 4 (z − 2)²/(2·1)`  (`15/8 < 3`). -/
+theorem C07.linf_array_weighted_fails :
+    Fn.prox (⟨id, 0⟩ : Env ℚ) (.linf 1) [4] (.sc 1) [2] = [1] ∧
+    |(7 / 4 : ℚ)| + 4 * ((7 / 4 : ℚ) - 2) ^ 2 / (2 * 1)
+      < |(1 : ℚ)| + 4 * ((1 : ℚ) - 2) ^ 2 / (2 * 1) := by
   constructor
   · decide +kernel
   · norm_num
-
-/-- Finding C07-F4 on the model: on `rn(2, weighting=[1, 2])`,
-`IndicatorSumConstraint.proximal(σ)([0, 0])` returns `[1/2, 1/2]`, but the feasible point
-`(2/3, 1/3)` is closer in the space's own norm (`1/3 < 3/8`). -/
-theorem C07.sumc_array_weighted_fails :
-    Fn.prox (⟨id, 0⟩ : Env ℚ) (.sumc 1) [1, 2] (.sc 1) [0, 0] = [1 / 2, 1 / 2] ∧
-    (2 / 3 : ℚ) + 1 / 3 = 1 ∧
-    (1 * ((2 / 3 : ℚ) - 0) ^ 2 + 2 * ((1 / 3 : ℚ) - 0) ^ 2) / 2
-      < (1 * ((1 / 2 : ℚ) - 0) ^ 2 + 2 * ((1 / 2 : ℚ) - 0) ^ 2) / 2 := by
-  refine ⟨by decide +kernel, by norm_num, by norm_num⟩
